@@ -44,6 +44,9 @@ type RewardPrice struct {
 	AmountUSDT string `json:"amount_usdt"`
 	Off        bool   `json:"off"`
 	Reward     string `json:"reward"`
+	// SafeReward is the reward that pays locked stakes and feeds the emission; it differs from Reward while the
+	// price record is "off". Empty in genesis files written before the field existed: Reward is used then.
+	SafeReward string `json:"safe_reward,omitempty"`
 }
 
 func (s *AppState) Verify() error {
